@@ -1,6 +1,7 @@
 package engine
 
 import (
+	"github.com/nyaruka/gocommon/urns"
 	"github.com/nyaruka/goflow/assets"
 	"github.com/nyaruka/goflow/contactql"
 	"github.com/nyaruka/goflow/envs"
@@ -24,6 +25,22 @@ import (
 // computes alone.  Natively 8 goroutines run the same operations under the
 // race detector.
 // cover: started, resumed, restored, context-walked
+func verifSpareContacts() []*flows.ContactReference {
+	refs := make([]*flows.ContactReference, 3, 4)
+	for k := range refs {
+		refs[k] = flows.NewContactReference(flows.ContactUUID(verifFlowUUID(20+k)), "C")
+	}
+	return refs
+}
+
+func verifSpareURNs() []urns.URN {
+	list := make([]urns.URN, 3, 4)
+	for k := range list {
+		list[k] = urns.URN("mailto:a" + string(rune('0'+k)) + "@example.com")
+	}
+	return list
+}
+
 func VerifC09_SharedAssets() {
 	env := envs.NewBuilder().WithAllowedLanguages("eng", "spa").Build()
 	sa := verifNewAssets()
@@ -33,18 +50,21 @@ func VerifC09_SharedAssets() {
 	loc := definition.NewLocalization()
 	loc.SetItemTranslation("spa", "a2", "text", []string{"hola @contact.name"})
 	loc.SetItemTranslation("spa", "c0", "name", []string{"Rojo"})
-	cats := []flows.Category{routers.NewCategory("c0", "Red", "e0"), routers.NewCategory("c1", "Other", "e1")}
+	cats := []flows.Category{routers.NewCategory("c0", "Red", verifExitUUID(9, 0, 0)), routers.NewCategory("c1", "Other", verifExitUUID(9, 0, 1))}
 	router := routers.NewSwitch(waits.NewMsgWait(nil, nil), "Color", cats, "@input.text", []*routers.Case{routers.NewCase("k0", "has_any_word", []string{"red"}, "c0")}, "c1")
-	n0 := definition.NewNode("f0n0", []flows.Action{
+	n0 := definition.NewNode(verifNodeUUID(0, 0), []flows.Action{
 		actions.NewSetContactName("a1", "Bob @(1+1)"),
 		actions.NewSendMsg("a2", "hi @contact.name", nil, []string{"yes"}, false),
 		actions.NewSetRunResult("a3", "Greeted", "yes", "Done"),
-	}, router, []flows.Exit{definition.NewExit("e0", "f0n1"), definition.NewExit("e1", "")})
-	n1 := definition.NewNode("f0n1", []flows.Action{actions.NewEnterFlow("a4", assets.NewFlowReference(verifFlowUUID(1), "F1"), false)}, nil, []flows.Exit{definition.NewExit("e2", "")})
+		// recipients lists with spare capacity (as encoding/json leaves for 3 entries) plus legacy variables resolved at run time
+		actions.NewSendBroadcast("a6", "news for @contact.name", nil, nil, nil, verifSpareContacts(), "", verifSpareURNs(), []string{"8f6f4e8e-5d0a-4a9e-9c3a-3c1c6f1a2b3c", "mailto:foo@bar.com"}),
+		actions.NewStartSession("a7", assets.NewFlowReference(verifFlowUUID(1), "F1"), nil, verifSpareContacts(), "", verifSpareURNs(), []string{"8f6f4e8e-5d0a-4a9e-9c3a-3c1c6f1a2b3c", "mailto:foo@bar.com"}, false),
+	}, router, []flows.Exit{definition.NewExit(verifExitUUID(9, 0, 0), verifNodeUUID(0, 1)), definition.NewExit(verifExitUUID(9, 0, 1), "")})
+	n1 := definition.NewNode(verifNodeUUID(0, 1), []flows.Action{actions.NewEnterFlow("a4", assets.NewFlowReference(verifFlowUUID(1), "F1"), false)}, nil, []flows.Exit{definition.NewExit(verifExitUUID(9, 0, 2), "")})
 	f0, err := definition.NewFlow(verifFlowUUID(0), "F0", "eng", flows.FlowTypeMessaging, 1, 10, loc, []flows.Node{n0, n1}, nil, nil)
 	zzverif.Assert(err == nil, "flow 0 did not validate")
 	f1, err := definition.NewFlow(verifFlowUUID(1), "F1", "eng", flows.FlowTypeMessaging, 1, 10, definition.NewLocalization(),
-		[]flows.Node{definition.NewNode("f1n0", []flows.Action{actions.NewSetRunResult("a5", "Child", "1", "")}, nil, []flows.Exit{definition.NewExit("e3", "")})}, nil, nil)
+		[]flows.Node{definition.NewNode(verifNodeUUID(1, 0), []flows.Action{actions.NewSetRunResult("a5", "Child", "1", "")}, nil, []flows.Exit{definition.NewExit(verifExitUUID(9, 0, 3), "")})}, nil, nil)
 	zzverif.Assert(err == nil, "flow 1 did not validate")
 	sa.add(f0)
 	sa.add(f1)
